@@ -542,8 +542,8 @@ func run(r *harness.Run) {
 			mo = append(mo, s)
 		}
 	}
-	if r.Quick() && len(mo) > 1000 {
-		mo = mo[:1000] // the quick tier explores the first 1000 scenarios of the (deterministic) list completely
+	if r.Quick() && len(mo) > 700 {
+		mo = mo[:700] // the quick tier explores the first 700 scenarios of the (deterministic) list completely
 	}
 	done := 0
 	for _, s := range mo {
